@@ -160,7 +160,7 @@ type (
 	}
 	validatorDelWithdrawChange struct {
 		address *common.Address
-		prev    *WithdrawRecord
+		prev    []*WithdrawRecord // the queue's records, in order, before RemoveWithdrawRecords
 	}
 )
 
@@ -210,7 +210,7 @@ func (ch validatorAddUBDChange) dirtied() *common.Address {
 
 func (ch validatorDelWithdrawChange) revert(s *StateDB) {
 	if queue, err := s.getWithdrawQueue(); err == nil && queue != nil {
-		queue.Add(ch.prev)
+		queue.Records = ch.prev
 	}
 }
 
